@@ -58,6 +58,32 @@ Proof.
   exact mopidy_edges_ranked_lemma.
 Qed.
 
+(* in mopidy no chain of blocked callers is longer than 4 (Main > Frontend > Core > Backend > Audio) *)
+Lemma mopidy_awaited_ranked_lemma : forall c d, edge_in_b edges c d = true -> 1 <= rank_total mopidy_rank d.
+Proof.
+  intros c d H. destruct d; try (cbn; lia).
+  exfalso. destruct c; vm_compute in H; discriminate.
+Qed.
+
+Theorem mopidy_wait_chain_bounded_lemma :
+  forall (comp_of : actor -> comp) (code_of : actor -> hid -> list instr),
+    (forall a h t h', In (ICall t h') (code_of a h) ->
+                      edge_in_b edges (comp_of a) (comp_of t) = true) ->
+    forall sched s, run code_of init sched = Some s ->
+    forall a p, wait_chain s a p -> List.length p <= 4.
+Proof.
+  intros comp_of code_of Hcode sched s Hrun a p Hc.
+  assert (H5 : forall c, rank_total mopidy_rank c <= 5) by (clear; intros c; destruct c; cbn; lia).
+  destruct (wait_chain_bounded_lemma edges mopidy_rank comp_of code_of
+              mopidy_edges_ranked_lemma Hcode sched s Hrun a p Hc) as [Hlen Hlast].
+  destruct p as [|b q]; [clear; cbn; lia|].
+  destruct Hlast as [c Hc']; [discriminate|].
+  pose proof (mopidy_awaited_ranked_lemma _ _ Hc') as H1.
+  specialize (H5 (comp_of a)).
+  change (List.length (b :: q)) with (S (List.length q)) in *.
+  clear - Hlen H1 H5. lia.
+Qed.
+
 (* the end-of-track callback: a GStreamer thread calling into the core is blocked until the
    core's own thread has run the handler to completion *)
 Theorem mopidy_callback_served_by_core_lemma :
